@@ -90,105 +90,152 @@ def _find_calls_under(node, name):
     return [c for c in cir.calls(node, name)]
 
 
+def _effects(fn):
+    """(node, description) for every statement-level effect on non-local state: stores through pointers / to members of
+    pointed-to objects / to globals, atomic operations and calls (calls left after inlining the static helpers)."""
+    local_ids = {x.get("id") for x in cir.walk(fn) if x.get("k") == "VarDecl"}
+    out = []
+    for n in cir.walk(fn):
+        k = n.get("k")
+        if cir.is_call(n):
+            out.append((n, f"call {cir.callee(n) or cir.text(n)[:30]}"))
+        elif k == "AtomicExpr":
+            out.append((n, "atomic " + cir.text(cir.kids(n)[0])))
+        elif (k == "BinaryOperator" and n.get("op") == "=") or k == "CompoundAssignOperator" or \
+                (k == "UnaryOperator" and n.get("op") in ("++", "--")):
+            lhs = cir.strip(cir.kids(n)[0])
+            x = lhs
+            through_ptr = False
+            while x is not None and x.get("k") in ("MemberExpr", "ArraySubscriptExpr", "UnaryOperator"):
+                if (x.get("k") == "MemberExpr" and x.get("arrow")) or x.get("k") == "ArraySubscriptExpr" or \
+                        (x.get("k") == "UnaryOperator" and x.get("op") == "*"):
+                    b_ = cir.strip(cir.kids(x)[0])
+                    if not (x.get("k") == "ArraySubscriptExpr" and "[" in ((b_ or {}).get("t") or "")):
+                        through_ptr = True
+                x = cir.strip(cir.kids(x)[0])
+            is_local = x is not None and x.get("k") == "DeclRefExpr" and (x.get("ref") or {}).get("id") in local_ids
+            if through_ptr or not is_local:
+                out.append((n, "store " + cir.text(lhs)))
+    return out
+
+
+def _tl_guard(gs):
+    """truth value of d->threadlock among the guards of a node, or None"""
+    for c, pol in gs or ():
+        if c.get("k") == "MemberExpr" and c.get("n") == "threadlock":
+            return pol
+    return None
+
+
 def threadlock_shape(res):
-    """Structural obligations inside engine_memory.c."""
+    """Structural obligations inside engine_memory.c, decided on the canonical view of each primitive (static helpers
+    inlined, early returns and error exits turned into nested if/else, so that the chain of enclosing conditions of a
+    statement is its guard)."""
+    from .. import linform as _lf, norm
     res.rule("R-THREADLOCK", "stack primitives: threadlock branch reserves only via the atomic add; mark/free are "
              "no-ops under threadlock; pstack otherwise written only from the local mjStackInfo; overflow tests end "
              "in mju_error", floor=6)
     u = engine.unit("src/engine/engine_memory.c")
-    need = ["stackalloc", "mj_markStack", "mj_freeStack", "stackallocinternal", "mj_arenaAllocByte"]
+    need = ["mj_markStack", "mj_freeStack", "mj_arenaAllocByte"]
     for f in need:
         if f not in u.funcs:
             raise AnalysisError(f"anchor function {f} not found in engine_memory.c")
     file = "src/engine/engine_memory.c"
 
-    def is_threadlock_if(n):
-        if n.get("k") != "IfStmt":
-            return False
-        c = cir.kids(n)
-        return "d->threadlock" == cir.text(c[0])
-
-    # 1. mark/free: first statement is `if (d->threadlock) return;`
+    # 1. mark/free: nothing happens while d->threadlock is set (frames are owned by mju_dispatch): every effect on
+    #    non-local state is guarded by !d->threadlock
     for f in ("mj_markStack", "mj_freeStack"):
-        b = cir.body(u.funcs[f])
-        first = cir.kids(b)[0] if cir.kids(b) else None
-        okk = first is not None and is_threadlock_if(first)
-        if okk:
-            then = cir.kids(first)[1]
-            rets = [x for x in cir.walk(then) if x.get("k") == "ReturnStmt"]
-            okk = bool(rets) and not any(cir.is_call(x) for x in cir.walk(then))
-        if okk:
-            res.ok("R-THREADLOCK", f"{f}:noop-under-threadlock", {"file": file, "line": first.get("line")})
+        fn = norm.canon(u, f)
+        body = cir.body(fn)
+        effs = _effects(body)
+        unguarded = [(n, what) for n, what in effs if _tl_guard(norm.guards(body, n)) is not False]
+        if not effs:
+            raise AnalysisError(f"{f}: no effects found")
+        if not unguarded:
+            res.ok("R-THREADLOCK", f"{f}:noop-under-threadlock", {"file": file, "effects_guarded": len(effs),
+                                                                "inlined": fn.get("inlined")})
         else:
-            res.bad("R-THREADLOCK", f"{f}:noop-under-threadlock", file, u.funcs[f].get("line"),
-                    f"{f} does not return immediately when d->threadlock is set (frames are owned by mju_dispatch)")
-    # 2. stackalloc: inside the threadlock branch, every write reaching d->pstack is the atomic add; outside, the
-    #    only write is `d->pstack = stack_info.bottom - stack_info.top`
-    fn = u.funcs["stackalloc"]
-    tl = [n for n in cir.walk(fn) if is_threadlock_if(n)]
-    if len(tl) != 1:
-        raise AnalysisError("stackalloc: expected exactly one `if (d->threadlock)`")
-    tlif = tl[0]
-    then = cir.kids(tlif)[1]
-    inside = set(id(x) for x in cir.walk(then))
-    atomic_nodes = [x for x in cir.walk(then) if x.get("k") == "AtomicExpr"]
+            n, what = unguarded[0]
+            res.bad("R-THREADLOCK", f"{f}:noop-under-threadlock", file, n.get("line") or u.funcs[f].get("line"),
+                    f"{f} does not return immediately when d->threadlock is set (frames are owned by mju_dispatch): "
+                    f"`{what}` is not guarded by !d->threadlock")
+    # 2. the allocation primitive: the function that contains the atomic add on &d->pstack (found by role, not by name)
+    # = the smallest function whose canonical view contains the atomic operation under a d->threadlock guard
+    cands = []
+    for name in u.funcs:
+        cf_ = norm.canon(u, name)
+        at = [x for x in cir.walk(cf_) if x.get("k") == "AtomicExpr"]
+        if at and all(_tl_guard(norm.guards(cir.body(cf_), x)) is True for x in at):
+            cands.append((sum(1 for _ in cir.walk(cf_)), name))
+    tops = [n for _sz, n in sorted(cands)[:1]]
+    if len(tops) != 1:
+        raise AnalysisError(f"allocation primitive with the atomic reservation not identified: {cands}")
+    aname = tops[0]
+    fn = norm.canon(u, aname)
+    body = cir.body(fn)
+    G = lambda n: norm.guards(body, n)
+    atomic_nodes = [x for x in cir.walk(body) if x.get("k") == "AtomicExpr"]
     atomic_calls = [x for x in atomic_nodes if (cir.atomic_info(x, file) or (None,))[0] in ("fetch_add", "add_fetch")]
-    plain_writes_in = []
-    plain_writes_out = []
-    for n in cir.walk(fn):
+    writes = []
+    for n in cir.walk(body):
         if (n.get("k") == "BinaryOperator" and n.get("op") == "=") or n.get("k") == "CompoundAssignOperator" or \
                 (n.get("k") == "UnaryOperator" and n.get("op") in ("++", "--")):
-            t = cir.text(cir.kids(n)[0])
-            if t == "d->pstack":
-                (plain_writes_in if id(n) in inside else plain_writes_out).append(n)
+            t = cir.strip(cir.kids(n)[0])
+            if t is not None and t.get("k") == "MemberExpr" and t.get("n") == "pstack" and t.get("arrow"):
+                writes.append(n)
+    plain_writes_in = [n for n in writes if _tl_guard(G(n)) is not False]
+    plain_writes_out = [n for n in writes if _tl_guard(G(n)) is False]
+    anchor_line = (atomic_nodes[0].get("line") if atomic_nodes else fn.get("line"))
     okk = len(atomic_calls) == 1 and len(atomic_nodes) == 1 and \
-        "&d->pstack" == cir.atomic_info(atomic_calls[0], file)[2] and not plain_writes_in
+        "&d->pstack" == cir.atomic_info(atomic_calls[0], file)[2] and not plain_writes_in and \
+        _tl_guard(G(atomic_calls[0])) is True
     if okk:
         res.ok("R-THREADLOCK", "stackalloc:atomic-reservation", {"file": file, "line": atomic_calls[0].get("line"),
-                                                                  "atomic": list(cir.atomic_info(atomic_calls[0], file))})
+                                                                  "atomic": list(cir.atomic_info(atomic_calls[0], file)),
+                                                                  "function": aname, "inlined": fn.get("inlined")})
     else:
-        res.bad("R-THREADLOCK", "stackalloc:atomic-reservation", file, tlif.get("line"),
+        res.bad("R-THREADLOCK", "stackalloc:atomic-reservation", file, anchor_line,
                 "under d->threadlock the shared stack pointer must be advanced only by one atomic add on &d->pstack "
                 f"(atomic calls: {len(atomic_calls)}, plain writes in branch: {len(plain_writes_in)})")
     # the block must be derived from the value RETURNED by the atomic add (this thread's own reservation): the result is bound
-    # to a local, and the branch contains no other read of the shared stack pointer (directly or through a helper that reads it)
-    bound = [x for x in cir.walk(then) if x.get("k") == "VarDecl" and x.get("init") and
-             any(y.get("k") == "AtomicExpr" for y in cir.walk(x))]
+    # to a local, and under threadlock there is no other read of the shared stack pointer (directly or through a function that
+    # reads it)
+    bound = [x for x in cir.walk(body) if (x.get("k") == "VarDecl" and x.get("init") and
+                                           any(y.get("k") == "AtomicExpr" for y in cir.walk(x))) or
+             (x.get("k") == "BinaryOperator" and x.get("op") == "=" and cir.strip(cir.kids(x)[0]).get("k") == "DeclRefExpr"
+              and any(y.get("k") == "AtomicExpr" for y in cir.walk(cir.kids(x)[1])))]
     other_reads = []
     readers_of_pstack = {name for name, f_ in u.funcs.items()
                          if any(y.get("k") == "MemberExpr" and y.get("n") == "pstack" for y in cir.walk(f_))}
-    for x in cir.walk(then):
-        if x.get("k") == "MemberExpr" and x.get("n") == "pstack":
-            inside_atomic = any(any(z is x for z in cir.walk(a_)) for a_ in atomic_nodes)
-            if not inside_atomic:
+    in_atomic = set()
+    for a_ in atomic_nodes:
+        in_atomic |= {id(z) for z in cir.walk(a_)}
+    for x in cir.walk(body):
+        if x.get("k") == "MemberExpr" and x.get("n") == "pstack" and id(x) not in in_atomic:
+            if _tl_guard(G(x)) is not False:
                 other_reads.append(x.get("line"))
-        if cir.is_call(x) and cir.callee(x) in readers_of_pstack and cir.callee(x) != "stackalloc":
+        if cir.is_call(x) and cir.callee(x) in readers_of_pstack and cir.callee(x) != aname and _tl_guard(G(x)) is not False:
             other_reads.append(x.get("line"))
     if len(bound) == 1 and not other_reads:
-        res.ok("R-THREADLOCK", "stackalloc:block-from-atomic-result", {"bound_to": bound[0].get("n")})
+        res.ok("R-THREADLOCK", "stackalloc:block-from-atomic-result", {"bound_to": bound[0].get("n") or cir.text(cir.kids(bound[0])[0])})
     else:
-        res.bad("R-THREADLOCK", "stackalloc:block-from-atomic-result", file, tlif.get("line"),
+        res.bad("R-THREADLOCK", "stackalloc:block-from-atomic-result", file, anchor_line,
                 "under d->threadlock the block must be computed from the value returned by the atomic add; "
                 + ("the result of the atomic add is discarded" if len(bound) != 1 else "")
                 + (f" d->pstack is read again (line {other_reads[0]}): another thread's reservation can land in between and both "
                    f"threads derive the same block" if other_reads else ""))
-    # threadlock branch must return on every path (never fall into the single-thread path)
-    class R(paths.Rule):
-        def fallthrough(self, st, ctx):
-            ctx.report(ctx.fn, "fallthrough")
-    # explore the branch body as a pseudo function
-    pseudo = {"k": "FunctionDecl", "n": "stackalloc.threadlock", "file": file, "line": then.get("line"), "i": [then]}
-    if then.get("k") != "CompoundStmt":
-        pseudo["i"] = [{"k": "CompoundStmt", "i": [then], "line": then.get("line")}]
-    ctx = paths.explore(R(), u, pseudo)
-    if ctx.reports:
-        res.bad("R-THREADLOCK", "stackalloc:threadlock-branch-returns", file, then.get("line"),
-                "the threadlock branch can fall through into the single-threaded allocation path")
+    # every path of the function is decided by d->threadlock before it touches the stack: all effects are guarded by a
+    # definite truth value of d->threadlock (the threadlock branch cannot fall into the single-threaded allocation)
+    undecided = [(n, w) for n, w in _effects(body) if _tl_guard(G(n)) is None and not w.startswith("call mju_")
+                 and not w.startswith("call __")]
+    if undecided:
+        res.bad("R-THREADLOCK", "stackalloc:threadlock-branch-returns", file, undecided[0][0].get("line"),
+                "the threadlock branch can fall through into the single-threaded allocation path: "
+                f"`{undecided[0][1]}` runs for either value of d->threadlock")
     else:
-        res.ok("R-THREADLOCK", "stackalloc:threadlock-branch-returns", {"file": file, "line": then.get("line")})
+        res.ok("R-THREADLOCK", "stackalloc:threadlock-branch-returns", {"file": file})
     # the amount reserved atomically, as a linear form, must dominate size + (alignment - 1) (the block is formed at
     # bottom - old - size and aligned DOWN by up to alignment-1), and the overflow test must test exactly that amount
-    from .. import linform as _lf
     defs = _lf.single_defs(fn)
     added_node = cir.kids(atomic_calls[0])[2] if atomic_calls and len(cir.kids(atomic_calls[0])) > 2 else None
     form = _lf.linform(added_node, defs) if added_node is not None else {}
@@ -197,109 +244,128 @@ def threadlock_shape(res):
             all(form[t] >= 0 for t in opaque):
         res.ok("R-THREADLOCK", "stackalloc:reservation-covers-alignment", {"reserved": _lf.fmt(form)})
     else:
-        res.bad("R-THREADLOCK", "stackalloc:reservation-covers-alignment", file, tlif.get("line"),
+        res.bad("R-THREADLOCK", "stackalloc:reservation-covers-alignment", file, anchor_line,
                 f"the atomically reserved amount `{_lf.fmt(form)}` is not provably >= size + alignment - 1: the block start is "
                 f"aligned down inside the reservation, so a smaller reservation lets blocks of different threads overlap")
-    # overflow test of the threadlock branch tests old + reserved against the space above the arena
-    gd = None
-    for st in cir.kids(then):
-        if st is not None and st.get("k") == "IfStmt" and any(cir.callee(c) == "mju_error" for c in cir.calls(cir.kids(st)[1])):
-            gd = cir.strip(cir.kids(st)[0])
-            while gd is not None and gd.get("k") == "CallExpr" and cir.callee(gd) == "__builtin_expect":
-                gd = cir.strip(cir.args(gd)[0])
-            while gd is not None and gd.get("k") == "UnaryOperator" and gd.get("op") == "!":
-                gd = cir.strip(cir.kids(gd)[0])
-    okg = False
+    # overflow test of the threadlock branch: every return of a block under threadlock is guarded by
+    #   (narena - parena) - (old + reserved) >= 0, and the failing side ends in mju_error (made a guard by the canonical view)
+    oldv = [(x.get("n") if x.get("k") == "VarDecl" else cir.text(cir.kids(x)[0])) for x in bound]
+    want = _lf._add({"d->narena": 1, "d->parena": -1}, _lf._add({oldv[0]: 1} if oldv else {}, form), -1)
+    tl_rets = [r for r in cir.walk(body) if r.get("k") == "ReturnStmt" and _tl_guard(G(r)) is True
+               and cir.kids(r) and cir.text(cir.kids(r)[0]) not in ("NULL", "0")]
+    okg = bool(tl_rets)
     detail = ""
-    if gd is not None and gd.get("k") == "BinaryOperator" and gd.get("op") in (">", ">="):
-        lhs = _lf.linform(cir.kids(gd)[0], defs)
-        rhs = _lf.linform(cir.kids(gd)[1], defs)
-        oldv = [x.get("n") for x in cir.walk(then) if x.get("k") == "VarDecl" and any(y.get("k") == "AtomicExpr" for y in cir.walk(x))]
-        want = _lf._add({oldv[0]: 1} if oldv else {}, form)
-        okg = lhs == want and rhs == {"d->narena": 1, "d->parena": -1}
-        detail = f"tests `{_lf.fmt(lhs)}` > `{_lf.fmt(rhs)}`; reserved `{_lf.fmt(form)}`"
+    for r in tl_rets:
+        rels = [_lf.relation(c, pol, defs) for c, pol in G(r)]
+        rels = [x for x in rels if x]
+        if not any(f == want for f, _strict in rels):
+            okg = False
+            detail = "guards of the returned block: " + "; ".join(_lf.fmt(f) + (" > 0" if st else " >= 0") for f, st in rels)
     if okg:
-        res.ok("R-THREADLOCK", "stackalloc:overflow-test-matches-reservation", {"detail": detail})
+        res.ok("R-THREADLOCK", "stackalloc:overflow-test-matches-reservation", {"guard": _lf.fmt(want) + " >= 0"})
     else:
-        res.bad("R-THREADLOCK", "stackalloc:overflow-test-matches-reservation", file, tlif.get("line"),
+        res.bad("R-THREADLOCK", "stackalloc:overflow-test-matches-reservation", file, anchor_line,
                 f"the threadlock overflow test does not compare (old pstack + reserved amount) with (narena - parena): {detail}")
-    okk = len(plain_writes_out) == 1 and cir.text(cir.kids(plain_writes_out[0])[1]) == "stack_info.bottom - stack_info.top"
+    # single-threaded path: d->pstack is written back from the local mjStackInfo whose top was lowered
+    okk = bool(plain_writes_out)
+    for w in plain_writes_out:
+        rhs = cir.kids(w)[1] if len(cir.kids(w)) > 1 else None
+        mem = [x for x in cir.walk(rhs) if x.get("k") == "MemberExpr" and x.get("n") == "top" and not x.get("arrow")] if rhs else []
+        if not mem or w.get("k") != "BinaryOperator":
+            okk = False
     if okk:
         res.ok("R-THREADLOCK", "stackalloc:pstack-from-local-info", {"line": plain_writes_out[0].get("line")})
     else:
         res.bad("R-THREADLOCK", "stackalloc:pstack-from-local-info", file, fn.get("line"),
-                "single-threaded path must write d->pstack exactly once, from the local mjStackInfo")
-    # 3. overflow tests: in stackalloc (threadlock) and stackallocinternal an if whose then-branch calls mju_error
-    #    must dominate the formation of the returned pointer: check that every ReturnStmt returning a non-NULL
-    #    expression comes after an if-with-mju_error in statement order within the same block
-    for fname, where in (("stackallocinternal", cir.body(u.funcs["stackallocinternal"])), ("stackalloc", then)):
-        stmts = cir.kids(where)
-        guard_idx = None
-        for i, st in enumerate(stmts):
-            if st is not None and st.get("k") == "IfStmt" and any(cir.callee(c) == "mju_error" for c in cir.calls(cir.kids(st)[1])):
-                cond = cir.text(cir.kids(st)[0])
-                guard_idx = i
-                guard_cond = cond
-        ret_idx = [i for i, st in enumerate(stmts) if st is not None and st.get("k") == "ReturnStmt"
-                   and cir.text(cir.kids(st)[0]) not in ("NULL", "0", "(void *)0")]
-        if guard_idx is not None and ret_idx and all(i > guard_idx for i in ret_idx) and ">" in guard_cond:
-            res.ok("R-THREADLOCK", f"{fname}:overflow-test-dominates-result", {"cond": guard_cond})
+                "single-threaded path must write d->pstack from the local mjStackInfo (bottom - top)")
+    # 3. overflow tests of the single-threaded path: lowering the local top is guarded by (new top - limit) >= 0 whose failing
+    #    side ends in mju_error; the same for mj_markStack's frame
+    for fname in (aname, "mj_markStack"):
+        f2 = norm.canon(u, fname)
+        b2 = cir.body(f2)
+        d2 = _lf.single_defs(f2)
+        lowers = [n for n in cir.walk(b2) if n.get("k") == "BinaryOperator" and n.get("op") == "=" and
+                  cir.strip(cir.kids(n)[0]).get("k") == "MemberExpr" and cir.strip(cir.kids(n)[0]).get("n") == "top"
+                  and not cir.strip(cir.kids(n)[0]).get("arrow") and "$" not in cir.text(cir.kids(n)[0])]
+        key = "stackallocinternal" if fname == aname else fname
+        if not lowers:
+            raise AnalysisError(f"{fname}: lowering of the local stack top not found")
+        bad = None
+        for n in lowers:
+            base = cir.text(cir.kids(cir.strip(cir.kids(n)[0]))[0])
+            want2 = _lf._add(_lf.linform(cir.kids(n)[1], d2), {f"{base}.limit": 1}, -1)
+            rels = [x for x in (_lf.relation(c, pol, d2) for c, pol in norm.guards(b2, n)) if x]
+            if not any(f == want2 for f, _s in rels):
+                bad = (n, "; ".join(_lf.fmt(f) for f, _s in rels))
+        if bad is None:
+            res.ok("R-THREADLOCK", f"{key}:overflow-test-dominates-result", {"lowerings": len(lowers)})
         else:
-            res.bad("R-THREADLOCK", f"{fname}:overflow-test-dominates-result", file, where.get("line"),
-                    "no overflow test ending in mju_error dominates the returned block pointer")
+            res.bad("R-THREADLOCK", f"{key}:overflow-test-dominates-result", file, bad[0].get("line"),
+                    "no overflow test ending in mju_error dominates the returned block pointer: the new stack top is not "
+                    f"compared with the arena limit on this path (guards: {bad[1]})")
+    # 4. module-wide: in every entry point of the allocator module, plain stores to the shared stack scalars happen only
+    #    when d->threadlock is clear (C02 relies on this for every function of this file that pool tasks reach)
+    inlined_somewhere = set()
+    for name in u.funcs:
+        inlined_somewhere |= set(norm.canon(u, name).get("inlined") or ())
+    for name in sorted(u.funcs):
+        if name in inlined_somewhere and u.funcs[name].get("storageClass") == "static":
+            continue
+        if (u.funcs[name].get("file") or file) != file:
+            continue
+        f2 = norm.canon(u, name)
+        b2 = cir.body(f2)
+        for n in cir.walk(b2):
+            if (n.get("k") == "BinaryOperator" and n.get("op") == "=") or n.get("k") == "CompoundAssignOperator" or \
+                    (n.get("k") == "UnaryOperator" and n.get("op") in ("++", "--")):
+                t = cir.strip(cir.kids(n)[0])
+                if t is not None and t.get("k") == "MemberExpr" and t.get("arrow") and t.get("n") in ("pstack", "pbase", "maxuse_stack") \
+                        and "mjData" in ((cir.strip(cir.kids(t)[0]) or {}).get("t") or ""):
+                    if _tl_guard(norm.guards(b2, n)) is False:
+                        res.ok("R-THREADLOCK", f"{name}:store:{t.get('n')}", None)
+                    else:
+                        res.bad("R-THREADLOCK", f"{name}:plain-store:{t.get('n')}", file, n.get("line"),
+                                f"{name} stores d->{t.get('n')} without a !d->threadlock guard: pool tasks share this scalar")
     arena_guard(res, "R-THREADLOCK", u)
 
 
 def arena_guard(res, rule, u=None):
     """mj_arenaAllocByte: tested amount == consumed amount, against narena - pstack, before the advance."""
+    from .. import linform as _lf, norm
     file = "src/engine/engine_memory.c"
     if u is None:
         u = engine.unit(file)
     if "mj_arenaAllocByte" not in u.funcs:
         raise AnalysisError("mj_arenaAllocByte not found")
-    # 4. arena: the amount tested by the rejecting comparison equals the amount by which parena advances, the test is
-    #    against (narena - pstack), and it precedes the advance
-    from .. import linform as _lf
-    fn = u.funcs["mj_arenaAllocByte"]
+    # 4. arena: every advance of d->parena is guarded by (narena - pstack) - (parena + advance) >= 0: the amount tested
+    #    equals the amount consumed, against the space below the stack
+    fn = norm.canon(u, "mj_arenaAllocByte")
+    body = cir.body(fn)
     defs = _lf.single_defs(fn)
-    stmts = cir.kids(cir.body(fn))
-    gi = None
-    tested = avail = None
-    for i, st in enumerate(stmts):
-        if st is not None and st.get("k") == "IfStmt":
-            rets = [x for x in cir.walk(cir.kids(st)[1]) if x.get("k") == "ReturnStmt"]
-            c = cir.strip(cir.kids(st)[0])
-            while c is not None and c.get("k") == "CallExpr" and cir.callee(c) == "__builtin_expect":
-                c = cir.strip(cir.args(c)[0])
-            while c is not None and c.get("k") == "UnaryOperator" and c.get("op") == "!":
-                c = cir.strip(cir.kids(c)[0])
-            if rets and c is not None and c.get("k") == "BinaryOperator" and c.get("op") in (">", ">=") and gi is None:
-                gi = i
-                tested = _lf.linform(cir.kids(c)[0], defs)
-                avail = _lf.linform(cir.kids(c)[1], defs)
-    adv = None
-    wi = []
-    for i, st in enumerate(stmts):
-        if st is not None and st.get("k") == "CompoundAssignOperator" and st.get("op") == "+=" and cir.text(cir.kids(st)[0]) == "d->parena":
-            adv = _lf.linform(cir.kids(st)[1], defs)
-            wi.append(i)
-        elif st is not None and st.get("k") == "BinaryOperator" and st.get("op") == "=" and cir.text(cir.kids(st)[0]) == "d->parena":
-            adv = _lf._add(_lf.linform(cir.kids(st)[1], defs), {"d->parena": 1}, -1)
-            wi.append(i)
+    advs = []
+    for st in cir.walk(body):
+        if st.get("k") == "CompoundAssignOperator" and st.get("op") == "+=" and cir.text(cir.kids(st)[0]) == "d->parena":
+            advs.append((st, _lf.linform(cir.kids(st)[1], defs)))
+        elif st.get("k") == "BinaryOperator" and st.get("op") == "=" and cir.text(cir.kids(st)[0]) == "d->parena":
+            advs.append((st, _lf._add(_lf.linform(cir.kids(st)[1], defs), {"d->parena": 1}, -1)))
+        elif st.get("k") in ("CompoundAssignOperator", "UnaryOperator") and st.get("op") in ("-=", "++", "--", "*=") and \
+                cir.text(cir.kids(st)[0]) == "d->parena":
+            advs.append((st, None))
     problems = []
-    if gi is None or adv is None or len(wi) != 1:
+    if len(advs) != 1 or advs[0][1] is None:
         problems.append("size test or single advance of d->parena not found")
     else:
-        if wi[0] < gi:
-            problems.append("d->parena is advanced before the size test")
-        if _lf._add(tested, {"d->parena": 1}, -1) != adv:
-            problems.append(f"the test budgets `{_lf.fmt(_lf._add(tested, {'d->parena': 1}, -1))}` but d->parena advances by `{_lf.fmt(adv)}`")
-        if avail != {"d->narena": 1, "d->pstack": -1}:
-            problems.append(f"the test compares against `{_lf.fmt(avail)}`, not narena - pstack")
+        st, adv = advs[0]
+        want = _lf._add({"d->narena": 1, "d->pstack": -1, "d->parena": -1}, adv, -1)
+        rels = [x for x in (_lf.relation(c, pol, defs) for c, pol in norm.guards(body, st)) if x]
+        if not any(f == want for f, _s in rels):
+            got = "; ".join(_lf.fmt(f) + " >= 0" for f, _s in rels) or "none"
+            problems.append(f"the advance of d->parena by `{_lf.fmt(adv)}` is not guarded by `{_lf.fmt(want)} >= 0` "
+                            f"(narena - pstack against parena + the same amount); guards on that path: {got}")
     if problems:
         res.bad(rule, "mj_arenaAllocByte:size-test-before-advance", file, fn.get("line"), "; ".join(problems))
     else:
-        res.ok(rule, "mj_arenaAllocByte:size-test-before-advance", {"tested": _lf.fmt(tested), "advance": _lf.fmt(adv)})
+        res.ok(rule, "mj_arenaAllocByte:size-test-before-advance", {"advance": _lf.fmt(advs[0][1]), "inlined": fn.get("inlined")})
 
 
 def run(res, tier):
